@@ -210,15 +210,6 @@ Definition JOKl (l : list (addr * Z)) (m : gmap addr nat) : Prop :=
   forall x i, m !! x = Some i -> exists n, l !! i = Some (x, n).
 Definition JOK (a : astate) : Prop := JOKl (a_dirties a) (a_jidx a).
 
-Lemma jidx_ok_JOK a : jidx_ok a = true -> JOK a.
-Proof.
-  unfold jidx_ok, JOK, JOKl. intros H x i Hx. rewrite forallb_forall in H.
-  assert (In (x, i) (map_to_list (a_jidx a))) as Hin.
-  { apply elem_of_list_In. apply elem_of_map_to_list. exact Hx. }
-  specialize (H _ Hin). simpl in H. destruct (a_dirties a !! i) as [[y n]|]; [|done].
-  simpl in H. apply N.eqb_eq in H. subst. eauto.
-Qed.
-
 Lemma add_dirty_spec a x : JOK a -> exists l m, add_dirty a x = Some (w_dirties a l m) /\ JOKl l m.
 Proof.
   intros HJ. unfold add_dirty. destruct (a_jidx a !! x) as [i|] eqn:Hx.
@@ -256,6 +247,58 @@ Lemma delete_dirty_shape a x a' : delete_dirty a x = Some a' -> exists l m, a' =
 Proof.
   unfold delete_dirty. destruct (a_jidx a !! x); [destruct (decide _)|]; intros [= <-]; eauto;
     exists (a_dirties a), (a_jidx a); destruct a; reflexivity.
+Qed.
+
+(* since fix 4b2faa6: the dirties bookkeeping of a revert keeps slice and index map in step *)
+Lemma reindex_d_lookup l2 : forall i m y j, reindex_d l2 i m !! y = Some j ->
+  (exists q n, l2 !! q = Some (y, n) /\ j = (i + q)%nat) \/
+  ((forall q n, l2 !! q <> Some (y, n)) /\ m !! y = Some j).
+Proof.
+  induction l2 as [|[z nz] rest IH]; intros i m y j H; simpl in H.
+  - right. split; [intros q n Hc; rewrite lookup_nil in Hc; done|exact H].
+  - destruct (IH _ _ _ _ H) as [(q & n & Hq & ->)|[Hno Hm]].
+    + left. exists (S q), n. split; [exact Hq|lia].
+    + destruct (decide (z = y)) as [->|Hne].
+      * rewrite lookup_insert in Hm. inversion Hm; subst. left. exists 0%nat, nz. split; [reflexivity|lia].
+      * rewrite lookup_insert_ne in Hm by done. right. split; [|exact Hm].
+        intros [|q] n Hc; simpl in Hc; [inversion Hc; subst; done|]. exact (Hno q n Hc).
+Qed.
+
+Lemma sub_dirty_JOK a x : JOK a -> exists l m, sub_dirty a x = Some (w_dirties a l m) /\ JOKl l m.
+Proof.
+  intros HJ. unfold sub_dirty. destruct (a_jidx a !! x) as [i|] eqn:Hx.
+  - destruct (HJ x i Hx) as [n Hn]. rewrite Hn. simpl. destruct (n =? 0).
+    + exists (a_dirties a), (a_jidx a). split; [destruct a; reflexivity|exact HJ].
+    + eexists _, _. split; [reflexivity|]. intros y j Hy. destruct (decide (i = j)) as [->|Hij].
+      * destruct (HJ y j Hy) as [n' Hn']. rewrite Hn in Hn'. inversion Hn'; subst.
+        rewrite list_lookup_insert by (eapply lookup_lt_Some; eauto). eauto.
+      * rewrite list_lookup_insert_ne by done. apply HJ. exact Hy.
+  - exists (a_dirties a), (a_jidx a). split; [destruct a; reflexivity|exact HJ].
+Qed.
+Lemma get_dirty_JOK a x : JOK a -> exists n, get_dirty a x = Some n.
+Proof.
+  intros HJ. unfold get_dirty. destruct (a_jidx a !! x) as [i|] eqn:Hx; [|eauto].
+  destruct (HJ x i Hx) as [n Hn]. rewrite Hn. simpl. eauto.
+Qed.
+Lemma delete_dirty_JOK a x : JOK a -> exists l m, delete_dirty a x = Some (w_dirties a l m) /\ JOKl l m.
+Proof.
+  intros HJ. unfold delete_dirty. destruct (a_jidx a !! x) as [i|] eqn:Hx.
+  2: { exists (a_dirties a), (a_jidx a). split; [destruct a; reflexivity|exact HJ]. }
+  destruct (HJ x i Hx) as [n Hn]. pose proof (lookup_lt_Some _ _ _ Hn) as Hlt.
+  rewrite decide_True by exact Hlt. eexists _, _. split; [reflexivity|].
+  set (l := a_dirties a) in *.
+  assert (forall j, (take i l ++ drop (S i) l) !! j = if decide (j < i)%nat then l !! j else l !! (S j)) as Hlk.
+  { intros j. destruct (decide (j < i)%nat) as [Hl|Hge].
+    - rewrite lookup_app_l by (rewrite take_length; lia). rewrite lookup_take by lia. reflexivity.
+    - rewrite lookup_app_r by (rewrite take_length; lia). rewrite take_length, lookup_drop. f_equal; lia. }
+  intros y j Hy. rewrite Hlk. destruct (reindex_d_lookup _ _ _ _ _ Hy) as [(q & n' & Hq & ->)|[Hno Hm]].
+  - rewrite lookup_drop in Hq. rewrite decide_False by lia. exists n'. rewrite <- Hq. f_equal; lia.
+  - destruct (decide (x = y)) as [<-|Hne]; [rewrite lookup_delete in Hm; done|].
+    rewrite lookup_delete_ne in Hm by done. destruct (HJ y j Hm) as [n' Hn']. fold l in Hn'.
+    assert (j <> i) by (intros ->; rewrite Hn in Hn'; inversion Hn'; done).
+    destruct (decide (j < i)%nat) as [|Hge]; [eauto|].
+    (* y sits behind the removed entry: then the re-indexing has overwritten its index *)
+    exfalso. apply (Hno (j - S i)%nat n'). rewrite lookup_drop. rewrite <- Hn'. f_equal; lia.
 Qed.
 
 (* ---- per-object storage: dirtyStorage/originStorage + their index maps -------------------- *)
@@ -494,6 +537,25 @@ Qed.
 Lemma arel_set_origin p x o c l m : OW p x (set_origin o l m) -> arel p x o c -> arel p x (set_origin o l m) c.
 Proof. intros HO (A & B & C & D & E & F & G & H & I). exact (conj A (conj B (conj C (conj D (conj E (conj F (conj G (conj HO I)))))))). Qed.
 
+(* entries whose undo dereferences the state object: the account must exist when they are undone *)
+Definition needs_live (e : entry) : option addr :=
+  match e with
+  | EBalance x _ | ENonce x _ | EStorage x _ _ | ECode x _ _ => Some x
+  | _ => None
+  end.
+Fixpoint ex_ok (L : list entry) (c : core) : Prop :=     (* L: newest first *)
+  match L with
+  | [] => True
+  | e :: rest => match needs_live e with Some x => is_Some (accts c !! x) | None => True end /\
+                 ex_ok rest (sundo e c)
+  end.
+(* an entry about account x that does not remove it *)
+Definition on_acct (x : addr) (e : entry) : Prop :=
+  match e with
+  | ECreate _ | EReset _ _ => False
+  | _ => match dirtied e with Some y => y = x | None => True end
+  end.
+
 (* ---- invariant --------------------------------------------------------------------------- *)
 Definition mono (l : list (Z * nat)) : Prop :=
   forall i j r1 r2, l !! i = Some r1 -> l !! j = Some r2 -> (i <= j)%nat -> (r1.2 <= r2.2)%nat.
@@ -511,10 +573,33 @@ Record Inv (a : astate) (s : sstate) : Prop := {
   i_id : a_nextid a = nextid s; i_sr : SR a s;
   i_ent : Forall (entry_ok (a_pers a)) (a_entries a);
   i_ne : NE (a_pers a);
-  i_aux : aux a = saux (cur s) }.
+  i_aux : aux a = saux (cur s);
+  i_ex : ex_ok (rev (a_entries a)) (cur s) }.
 
 Lemma sundo_list_app l1 l2 c : sundo_list (l1 ++ l2) c = sundo_list l2 (sundo_list l1 c).
 Proof. unfold sundo_list. apply fold_left_app. Qed.
+
+Lemma ex_ok_app L1 : forall L2 c, ex_ok (L1 ++ L2) c <-> ex_ok L1 c /\ ex_ok L2 (sundo_list L1 c).
+Proof.
+  induction L1 as [|e L1 IH]; intros L2 c; simpl; [tauto|].
+  rewrite IH. unfold sundo_list at 2. simpl. fold (sundo_list L1 (sundo e c)). tauto.
+Qed.
+Lemma ex_ok_nolive L : forall c, Forall (fun e => needs_live e = None) L -> ex_ok L c.
+Proof.
+  induction L as [|e L IH]; intros c H; simpl; [exact I|]. inversion H as [|? ? He HL]; subst.
+  rewrite He. split; [exact I|apply IH; exact HL].
+Qed.
+Lemma ex_ok_on x L : forall c, Forall (on_acct x) L -> is_Some (accts c !! x) -> ex_ok L c.
+Proof.
+  induction L as [|e L IH]; intros c H Hx; simpl; [exact I|]. inversion H as [|? ? He HL]; subst.
+  split.
+  - destruct e; simpl in *; try exact I; subst; exact Hx.
+  - apply IH; [exact HL|]. destruct e; simpl in *; try done; subst; try exact Hx;
+      rewrite lookup_alter; apply fmap_is_Some; exact Hx.
+Qed.
+Lemma ex_extend es new c c2 : ex_ok (rev es) c -> sundo_list (rev new) c2 = c -> ex_ok (rev new) c2 ->
+  ex_ok (rev (es ++ new)) c2.
+Proof. intros H1 H2 H3. rewrite rev_app_distr. apply ex_ok_app. rewrite H2. split; assumption. Qed.
 
 Lemma SR_extend a a' s c2 new :
   a_revs a' = a_revs a -> a_entries a' = a_entries a ++ new ->
@@ -577,7 +662,7 @@ Lemma fin_rel a s x a1 a' new es2 ac ac' o' :
   (forall y, look a' y = if decide (x = y) then Some o' else look a1 y) ->
   a_entries a' = a_entries a1 ++ es2 -> same_frame a1 a' ->
   arel (a_pers a) x o' ac' ->
-  Forall (entry_ok (a_pers a)) es2 ->
+  Forall (fun e => entry_ok (a_pers a) e /\ on_acct x e) es2 ->
   sundo_list (rev es2) (with_accts (cur s) (<[x := ac']> (accts (cur s)))) =
     with_accts (cur s) (<[x := ac]> (accts (cur s))) ->
   Inv a' (with_cur s (with_accts (cur s) (<[x := ac']> (accts (cur s))))).
@@ -602,9 +687,19 @@ Proof.
   - rewrite Hp, He2, He1. apply Forall_app. split; [apply Forall_app; split|].
     + exact (i_ent _ _ HI).
     + destruct Hcase as [[-> _]|(-> & _ & Hld)]; [constructor|]. constructor; [exact Hld|constructor].
-    + exact Hok.
+    + eapply Forall_impl; [exact Hok|]. intros e [H _]. exact H.
   - rewrite Hp. exact (i_ne _ _ HI).
   - rewrite Hx2, Hx1. exact (i_aux _ _ HI).
+  - rewrite He2, He1, <- app_assoc. simpl.
+    apply (ex_extend _ _ (cur s)); [exact (i_ex _ _ HI)| |].
+    + rewrite rev_app_distr, sundo_list_app, Hundo.
+      destruct Hcase as [[-> Hac]|(-> & Hac & _)]; unfold sundo_list; simpl.
+      * rewrite insert_id by exact Hac. apply with_accts_id.
+      * unfold with_accts; simpl. rewrite delete_insert by exact Hac. destruct (cur s); reflexivity.
+    + rewrite rev_app_distr. apply ex_ok_app. split.
+      * apply (ex_ok_on x); [apply Forall_rev; eapply Forall_impl; [exact Hok|]; intros e [_ H]; exact H|].
+        simpl. rewrite lookup_insert. eauto.
+      * apply ex_ok_nolive. apply Forall_rev. destruct Hcase as [[-> _]|(-> & _)]; repeat constructor.
 Qed.
 
 Lemma so_spec a x o : WO a -> JOK a ->
@@ -645,6 +740,7 @@ Proof.
   - rewrite Hp, He. exact (i_ent _ _ HI).
   - rewrite Hp. exact (i_ne _ _ HI).
   - rewrite Hx. exact (i_aux _ _ HI).
+  - rewrite He. exact (i_ex _ _ HI).
 Qed.
 
 (* reads *)
@@ -742,7 +838,8 @@ Proof.
   destruct (v =? 0) eqn:Ev.
   - apply Z.eqb_eq in Ev. subst v. rewrite Z.add_0_r, with_bal_same.
     assert (forall a', WO a' -> JOK a' -> (forall y, look a' y = look a1 y) -> forall es2,
-              a_entries a' = a_entries a1 ++ es2 -> same_frame a1 a' -> Forall (entry_ok (a_pers a)) es2 ->
+              a_entries a' = a_entries a1 ++ es2 -> same_frame a1 a' ->
+              Forall (fun e => entry_ok (a_pers a) e /\ on_acct x e) es2 ->
               sundo_list (rev es2) (with_accts (cur s) (<[x := ac]> (accts (cur s)))) =
                 with_accts (cur s) (<[x := ac]> (accts (cur s))) ->
               Inv a' (with_cur s (with_accts (cur s) (<[x := ac]> (accts (cur s)))))) as Hfin.
@@ -835,6 +932,8 @@ Proof.
   - apply Forall_app. split; [exact (i_ent _ _ HI)|repeat constructor].
   - exact (i_ne _ _ HI).
   - exact (i_aux _ _ HI).
+  - apply (ex_extend _ _ (cur s)); [exact (i_ex _ _ HI)| |simpl; split; exact I].
+    simpl. unfold sundo_list; simpl. rewrite (proj2 (i_crel _ _ HI)). apply with_refund_undo.
 Qed.
 
 Lemma sim_AddRefund a s g : Inv a s -> sim a s (AddRefund g).
@@ -1002,6 +1101,7 @@ Proof.
   - exact (i_ent _ _ HI).
   - exact (i_ne _ _ HI).
   - exact (i_aux _ _ HI).
+  - exact (i_ex _ _ HI).
 Qed.
 
 (* ---- RevertToSnapshot -------------------------------------------------------------------- *)
@@ -1039,10 +1139,8 @@ Lemma set_in_revert_spec a x o b a' : WO a -> so_set_balance_in_revert a x o b =
   WO a' /\ (forall y, look a' y = if decide (x = y) then Some (set_bal o b) else look a y) /\ keeps a a' /\
   a_refund a' = a_refund a.
 Proof.
-  intros HW. unfold so_set_balance_in_revert. destruct (add_dirty a x) as [a2|] eqn:Hd; simpl; [|done].
-  destruct (add_dirty_shape _ _ _ Hd) as (dl & dm & ->).
-  assert (WO (w_dirties a dl dm)) as HW2 by exact HW.
-  destruct (set_obj_spec _ x (set_bal o b) HW2) as (l & m & Hs & HW' & Hl). rewrite Hs. intros [= <-].
+  intros HW. unfold so_set_balance_in_revert.
+  destruct (set_obj_spec a x (set_bal o b) HW) as (l & m & Hs & HW' & Hl). rewrite Hs. intros [= <-].
   split; [exact HW'|]. split; [exact Hl|]. repeat split.
 Qed.
 
@@ -1160,9 +1258,7 @@ Proof.
 Qed.
 Lemma set_in_revert_aux a x o b a' : so_set_balance_in_revert a x o b = Some a' -> aux a' = aux a.
 Proof.
-  unfold so_set_balance_in_revert. destruct (add_dirty a x) as [a2|] eqn:Hd; simpl; [|done].
-  destruct (add_dirty_shape _ _ _ Hd) as (dl & dm & ->). intros Hs.
-  destruct (set_obj_shape _ _ _ _ Hs) as (l & m & ->). reflexivity.
+  unfold so_set_balance_in_revert. intros Hs. destruct (set_obj_shape _ _ _ _ Hs) as (l & m & ->). reflexivity.
 Qed.
 
 Lemma revert_entry_aux a e a' : revert_entry a e = Some a' -> aux a' = auxundo e (aux a).
@@ -1273,28 +1369,129 @@ Proof.
   rewrite take_length. lia.
 Qed.
 
-Lemma sim_Revert a s id : Inv a s -> revert_fine a (RevertToSnapshot id) = true -> sim a s (RevertToSnapshot id).
+(* since fix 4b2faa6 a revert cannot panic and leaves the dirties index in step *)
+Lemma revert_entry_dirties a e a' : revert_entry a e = Some a' ->
+  a_dirties a' = a_dirties a /\ a_jidx a' = a_jidx a.
 Proof.
-  intros HI Hfine. destruct (i_sr _ _ HI) as [HF Hm].
+  destruct e as [x|x prev|x prev pb|x prev|x prev|x k prev|x ph pc|prev| |x|x|x k]; simpl; intros Hre.
+  - inversion Hre; subst. unfold remove_obj. destruct (a_oidx a !! x); [destruct (decide _)|]; split; reflexivity.
+  - destruct (set_obj_shape _ _ _ _ Hre) as (l & m & ->). split; reflexivity.
+  - destruct (get_obj a x) as [[a1 so]|] eqn:Hg; simpl in Hre; [|done].
+    destruct (get_obj_shape _ _ _ _ Hg) as (l & m & ->). destruct so as [o|].
+    + destruct (set_obj _ x (set_suic o prev)) as [a2|] eqn:Hs; simpl in Hre; [|done].
+      destruct (set_obj_shape _ _ _ _ Hs) as (l2 & m2 & ->). unfold so_set_balance_in_revert in Hre.
+      destruct (set_obj_shape _ _ _ _ Hre) as (l3 & m3 & ->). split; reflexivity.
+    + inversion Hre; subst. split; reflexivity.
+  - destruct (live_obj a x) as [[a1 o]|] eqn:Hl; simpl in Hre; [|done]. unfold live_obj in Hl.
+    destruct (get_obj a x) as [[a2 so]|] eqn:Hg; simpl in Hl; [|done]. destruct so; simpl in Hl; [|done]. inversion Hl; subst.
+    destruct (get_obj_shape _ _ _ _ Hg) as (l & m & ->). unfold so_set_balance_in_revert in Hre.
+    destruct (set_obj_shape _ _ _ _ Hre) as (l3 & m3 & ->). split; reflexivity.
+  - destruct (live_obj a x) as [[a1 o]|] eqn:Hl; simpl in Hre; [|done]. unfold live_obj in Hl.
+    destruct (get_obj a x) as [[a2 so]|] eqn:Hg; simpl in Hl; [|done]. destruct so; simpl in Hl; [|done]. inversion Hl; subst.
+    destruct (get_obj_shape _ _ _ _ Hg) as (l & m & ->).
+    destruct (set_obj_shape _ _ _ _ Hre) as (l3 & m3 & ->). split; reflexivity.
+  - destruct (live_obj a x) as [[a1 o]|] eqn:Hl; simpl in Hre; [|done]. unfold live_obj in Hl.
+    destruct (get_obj a x) as [[a2 so]|] eqn:Hg; simpl in Hl; [|done]. destruct so; simpl in Hl; [|done]. inversion Hl; subst.
+    destruct (get_obj_shape _ _ _ _ Hg) as (l & m & ->). destruct (obj_setstate o k prev); simpl in Hre; [|done].
+    destruct (set_obj_shape _ _ _ _ Hre) as (l3 & m3 & ->). split; reflexivity.
+  - destruct (live_obj a x) as [[a1 o]|] eqn:Hl; simpl in Hre; [|done]. unfold live_obj in Hl.
+    destruct (get_obj a x) as [[a2 so]|] eqn:Hg; simpl in Hl; [|done]. destruct so; simpl in Hl; [|done]. inversion Hl; subst.
+    destruct (get_obj_shape _ _ _ _ Hg) as (l & m & ->).
+    destruct (set_obj_shape _ _ _ _ Hre) as (l3 & m3 & ->). split; reflexivity.
+  - inversion Hre; subst. split; reflexivity.
+  - inversion Hre; subst. split; reflexivity.
+  - inversion Hre; subst. split; reflexivity.
+  - inversion Hre; subst. split; reflexivity.
+  - inversion Hre; subst. split; reflexivity.
+Qed.
+
+Lemma live_obj_total a x o : WO a -> look a x = Some o -> exists a1, live_obj a x = Some (a1, o).
+Proof.
+  intros HW Hl. unfold live_obj. destruct (get_obj_spec a x HW) as (l & m & Hg & _). rewrite Hg, Hl. simpl. eauto.
+Qed.
+
+Lemma revert_entry_total a c e : WO a -> crel a c -> entry_ok (a_pers a) e ->
+  match needs_live e with Some x => is_Some (accts c !! x) | None => True end ->
+  exists a', revert_entry a e = Some a'.
+Proof.
+  intros HW HC Hok Hlive.
+  assert (forall x, is_Some (accts c !! x) -> exists o ac, look a x = Some o /\ accts c !! x = Some ac /\ arel (a_pers a) x o ac) as Hget.
+  { intros x [ac Hac]. pose proof (proj1 HC x) as Hx. rewrite Hac in Hx. unfold orel in Hx.
+    destruct (look a x) as [o|]; [|done]. eauto. }
+  destruct e as [x|x prev|x prev pb|x prev|x prev|x k prev|x ph pc|prev| |x|x|x k]; simpl in *; try done; eauto.
+  - (* ESuicide *)
+    destruct (get_obj_spec a x HW) as (l & m & Hg & HW1 & _). rewrite Hg. simpl.
+    destruct (look a x) as [o|]; [|eauto].
+    destruct (set_obj_spec (w_objs a l m) x (set_suic o prev) HW1) as (l2 & m2 & Hs & HW2 & _). rewrite Hs. simpl.
+    unfold so_set_balance_in_revert.
+    destruct (set_obj_spec (w_objs (w_objs a l m) l2 m2) x (set_bal (set_suic o prev) pb) HW2) as (l3 & m3 & Hs3 & _). eauto.
+  - destruct (Hget x Hlive) as (o & ac & Hl & _). destruct (live_obj_total a x o HW Hl) as (a1 & Hlo). rewrite Hlo. simpl.
+    destruct (live_obj_spec _ _ _ _ HW Hlo) as (_ & HW1 & _). unfold so_set_balance_in_revert.
+    destruct (set_obj_spec a1 x (set_bal o prev) HW1) as (l3 & m3 & Hs3 & _). eauto.
+  - destruct (Hget x Hlive) as (o & ac & Hl & _). destruct (live_obj_total a x o HW Hl) as (a1 & Hlo). rewrite Hlo. simpl.
+    destruct (live_obj_spec _ _ _ _ HW Hlo) as (_ & HW1 & _).
+    destruct (set_obj_spec a1 x (set_nonce o prev) HW1) as (l3 & m3 & Hs3 & _). eauto.
+  - destruct (Hget x Hlive) as (o & ac & Hl & _ & Har). destruct (live_obj_total a x o HW Hl) as (a1 & Hlo). rewrite Hlo. simpl.
+    destruct (live_obj_spec _ _ _ _ HW Hlo) as (_ & HW1 & _).
+    destruct Har as (_ & _ & _ & _ & _ & _ & HD & _).
+    destruct (obj_setstate_spec (a_pers a) x o k prev HD) as (dl & dm & Hss & _). rewrite Hss. simpl.
+    destruct (set_obj_spec a1 x (set_dirty o dl dm) HW1) as (l3 & m3 & Hs3 & _). eauto.
+  - destruct (Hget x Hlive) as (o & ac & Hl & _). destruct (live_obj_total a x o HW Hl) as (a1 & Hlo). rewrite Hlo. simpl.
+    destruct (live_obj_spec _ _ _ _ HW Hlo) as (_ & HW1 & _).
+    destruct (set_obj_spec a1 x (set_code o ph pc) HW1) as (l3 & m3 & Hs3 & _). eauto.
+Qed.
+
+Lemma dirties_step_total a1 x : JOK a1 ->
+  exists l m, (a' ← sub_dirty a1 x; n ← get_dirty a' x; if n =? 0 then delete_dirty a' x else Some a') = Some (w_dirties a1 l m)
+              /\ JOKl l m.
+Proof.
+  intros HJ. destruct (sub_dirty_JOK a1 x HJ) as (l & m & Hs & HJ1). rewrite Hs. simpl.
+  assert (JOK (w_dirties a1 l m)) as HJ1' by exact HJ1.
+  destruct (get_dirty_JOK _ x HJ1') as (n & Hn). rewrite Hn. simpl. destruct (n =? 0).
+  - destruct (delete_dirty_JOK _ x HJ1') as (l2 & m2 & Hd & HJ2). rewrite Hd. exists l2, m2. split; [reflexivity|exact HJ2].
+  - exists l, m. split; [reflexivity|exact HJ1].
+Qed.
+
+Lemma revert_list_total L : forall a c, WO a -> JOK a -> crel a c ->
+  Forall (entry_ok (a_pers a)) L -> ex_ok L c -> exists a', revert_list a L = Some a' /\ JOK a'.
+Proof.
+  induction L as [|e L IH]; intros a c HW HJ HC Hok Hex; simpl; [eauto|].
+  inversion Hok as [|? ? Hoe HoL]; subst. destruct Hex as [Hlive Hex].
+  destruct (revert_entry_total a c e HW HC Hoe Hlive) as (a1 & He). rewrite He. simpl.
+  destruct (revert_entry_sim a c e a1 HW HC Hoe He) as (HW1 & HC1 & (Hp1 & _)).
+  destruct (revert_entry_dirties a e a1 He) as (Hd1 & Hj1).
+  assert (JOK a1) as HJ1 by (unfold JOK; rewrite Hd1, Hj1; exact HJ).
+  destruct (dirtied e) as [x|].
+  - destruct (dirties_step_total a1 x HJ1) as (l & m & Hs & HJ2). rewrite Hs. simpl.
+    apply (IH (w_dirties a1 l m) (sundo e c)); [exact HW1|exact HJ2|exact HC1|simpl; rewrite Hp1; exact HoL|exact Hex].
+  - simpl. apply (IH a1 (sundo e c)); [exact HW1|exact HJ1|exact HC1|rewrite Hp1; exact HoL|exact Hex].
+Qed.
+
+Lemma sim_Revert a s id : Inv a s -> sim a s (RevertToSnapshot id).
+Proof.
+  intros HI. destruct (i_sr _ _ HI) as [HF Hm].
   assert (Forall2 (fun r sn => r.1 = sn.1) (a_revs a) (snaps s)) as HF1.
   { eapply Forall2_impl; [exact HF|]. intros r sn (H & _). exact H. }
   pose proof (find_agree id (a_revs a) (snaps s) 0%nat HF1) as Hfa.
-  unfold revert_fine in Hfine. unfold sim, astep.
+  unfold sim, astep.
   destruct (find_rev id (a_revs a) 0) as [[j n]|] eqn:Hfr.
   2: { simpl. rewrite Hfr. simpl. rewrite Hfa. exists OPanic, a, s. done. }
   destruct Hfa as (c' & Hfs & _ & Hrj & Hsj). rewrite Nat.sub_0_r in Hrj, Hsj.
-  destruct (astep_opt a (RevertToSnapshot id)) as [[r a']|] eqn:Hstep; [|done].
-  simpl in Hstep. rewrite Hfr in Hstep. simpl in Hstep. unfold j_revert in Hstep.
-  destruct (revert_list a (rev (drop n (a_entries a)))) as [a1|] eqn:Hrl; simpl in Hstep; [|done].
-  inversion Hstep; subst r a'. clear Hstep.
   destruct (Forall2_lookup_lr _ _ _ _ _ _ HF Hrj Hsj) as (_ & Hn & Hc'). simpl in Hn, Hc'.
-  destruct (revert_list_sim (rev (drop n (a_entries a))) a (cur s) a1 (i_wo _ _ HI) (i_crel _ _ HI)) as (HW1 & HC1 & (Hp1 & He1 & Hr1 & Hn1)); [|exact Hrl|].
+  assert (Forall (entry_ok (a_pers a)) (rev (drop n (a_entries a)))) as HokL.
   { apply Forall_rev. apply Forall_drop. exact (i_ent _ _ HI). }
+  assert (ex_ok (rev (drop n (a_entries a))) (cur s) /\
+          ex_ok (rev (take n (a_entries a))) (sundo_list (rev (drop n (a_entries a))) (cur s))) as [HexL HexR].
+  { apply ex_ok_app. rewrite <- rev_app_distr, take_drop. exact (i_ex _ _ HI). }
+  destruct (revert_list_total _ a (cur s) (i_wo _ _ HI) (i_jok _ _ HI) (i_crel _ _ HI) HokL HexL) as (a1 & Hrl & HJ1).
+  simpl. rewrite Hfr. simpl. unfold j_revert. rewrite Hrl. simpl.
+  destruct (revert_list_sim (rev (drop n (a_entries a))) a (cur s) a1 (i_wo _ _ HI) (i_crel _ _ HI) HokL Hrl)
+    as (HW1 & HC1 & (Hp1 & He1 & Hr1 & Hn1)).
   exists OUnit. eexists. exists {| cur := c'; snaps := take j (snaps s); nextid := nextid s |}.
   split; [reflexivity|]. split; [simpl; rewrite Hfs; reflexivity|].
   split; simpl.
   - exact HW1.
-  - apply jidx_ok_JOK in Hfine. exact Hfine.
+  - exact HJ1.
   - rewrite Hp1. exact (i_nr _ _ HI).
   - rewrite Hc'. exact HC1.
   - rewrite Hn1. exact (i_id _ _ HI).
@@ -1317,6 +1514,7 @@ Proof.
   - rewrite Hp1. apply Forall_take. exact (i_ent _ _ HI).
   - rewrite Hp1. exact (i_ne _ _ HI).
   - rewrite Hc', sundo_list_aux, <- (i_aux _ _ HI). exact (revert_list_aux _ _ _ Hrl).
+  - rewrite Hc'. exact HexR.
 Qed.
 
 (* ---- Finalise ---------------------------------------------------------------------------- *)
@@ -1684,6 +1882,7 @@ Proof.
   - intros x o Hl. exact (proj2 (proj2 (Hall x)) o Hl).
   - simpl. rewrite Haux. unfold aux; simpl. pose proof (i_aux _ _ HI) as Hx. unfold aux, saux in Hx.
     destruct block; [reflexivity|]. congruence.
+  - exact I.
 Qed.
 
 Lemma step_class_fin a o : step_ok a o = true -> (o = Finalise \/ o = BlockCommit) ->
@@ -1691,7 +1890,7 @@ Lemma step_class_fin a o : step_ok a o = true -> (o = Finalise \/ o = BlockCommi
 Proof.
   unfold step_ok, step_class. intros H Ho.
   destruct (trig_residue a o) eqn:E1; [done|]. destruct (trig_create_over a o); [done|].
-  destruct (trig_stale a o); [done|]. destruct (pre_violated a o); [done|].
+  destruct (pre_violated a o); [done|].
   destruct (fin_unchecked a o) eqn:E5; [done|].
   destruct Ho as [-> | ->]; simpl in E1, E5; apply negb_false_iff in E5; split; assumption.
 Qed.
@@ -1764,7 +1963,7 @@ Proof.
   rewrite Hj. simpl. rewrite Hs. simpl. eexists _, _, _. split; [reflexivity|]. split; [reflexivity|].
   eapply (fin_rel a s x a1 a' new [ECode x (o_hash o) (obj_code (a_pers a) o)] ac); eauto.
   - apply arel_code. exact Har.
-  - constructor; [|constructor]. simpl. apply CC_code. exact Hcc.
+  - constructor; [|constructor]. split; [simpl; apply CC_code; exact Hcc|reflexivity].
   - simpl. unfold with_accts; simpl. rewrite alter_insert. rewrite Ah, with_code_undo. reflexivity.
 Qed.
 
@@ -1773,7 +1972,7 @@ Lemma inv_aux a s a' c2 new :
   Inv a s ->
   a_pers a' = a_pers a -> a_objs a' = a_objs a -> a_oidx a' = a_oidx a -> a_dirties a' = a_dirties a ->
   a_jidx a' = a_jidx a -> a_revs a' = a_revs a -> a_nextid a' = a_nextid a -> a_refund a' = a_refund a ->
-  a_entries a' = a_entries a ++ new -> Forall (entry_ok (a_pers a)) new ->
+  a_entries a' = a_entries a ++ new -> Forall (fun e => entry_ok (a_pers a) e /\ needs_live e = None) new ->
   accts c2 = accts (cur s) -> refund c2 = refund (cur s) -> aux a' = saux c2 ->
   sundo_list (rev new) c2 = cur s ->
   Inv a' (with_cur s c2).
@@ -1787,9 +1986,12 @@ Proof.
     apply (proj1 (i_crel _ _ HI)).
   - rewrite Hn. exact (i_id _ _ HI).
   - apply (SR_extend a a' s c2 new Hr He Hu (i_sr _ _ HI)).
-  - rewrite Hp, He. apply Forall_app. split; [exact (i_ent _ _ HI)|exact Hok].
+  - rewrite Hp, He. apply Forall_app. split; [exact (i_ent _ _ HI)|].
+    eapply Forall_impl; [exact Hok|]. intros e [H _]. exact H.
   - rewrite Hp. exact (i_ne _ _ HI).
   - exact Hx.
+  - rewrite He. apply (ex_extend _ _ (cur s)); [exact (i_ex _ _ HI)|exact Hu|].
+    apply ex_ok_nolive. apply Forall_rev. eapply Forall_impl; [exact Hok|]. intros e [_ H]. exact H.
 Qed.
 
 Lemma aux_eqs a s : Inv a s ->
@@ -1883,13 +2085,12 @@ Qed.
 Lemma step_ok_pre a o : step_ok a o = true -> pre_violated a o = false.
 Proof.
   unfold step_ok, step_class. destruct (trig_residue a o); [done|]. destruct (trig_create_over a o); [done|].
-  destruct (trig_stale a o); [done|]. destruct (pre_violated a o); done.
+  destruct (pre_violated a o); done.
 Qed.
 
 Lemma step_sim a s o : Inv a s -> pstep_ok a o = true -> sim a s o.
 Proof.
   intros HI Hok. unfold pstep_ok in Hok. apply andb_prop in Hok. destruct Hok as [Hok Hfresh].
-  apply andb_prop in Hok. destruct Hok as [Hok Hfine].
   apply andb_prop in Hok. destruct Hok as [Hok Hcore]. pose proof Hok as Hsok. apply step_ok_pre in Hok.
   destruct o; simpl in Hcore; try done.
   - apply simo_sim, sim_CreateAccount; [assumption|]. simpl in Hfresh. apply negb_true_iff. exact Hfresh.
@@ -1960,6 +2161,7 @@ Proof.
   - constructor.
   - intros x o. unfold load, pbal; simpl. rewrite !lookup_empty. simpl. done.
   - reflexivity.
+  - exact I.
 Qed.
 
 (* ---- starting states --------------------------------------------------------------------- *)
@@ -2098,4 +2300,5 @@ Proof.
   - constructor.
   - intros x o Hl. exact (proj2 (proj2 (Hx x)) o Hl).
   - reflexivity.
+  - exact I.
 Qed.
